@@ -152,7 +152,27 @@ def generate(rng, prop, tier):
         cfg['e'] = None
         cfg['e_vld'] = None
     cfg['m_cache_scale'] = rng.choice([5, 5, 10 ** 9, 10 ** 9, 1])
+    u = rng.random()
+    if u < 0.02:
+        # a very large validation set (size-dependent code paths in the error evaluation)
+        cfg['vld'] = {'m': rng.randint(100001, 220000), 'seed': rng.randrange(1 << 30)}
+        cfg['e_vld'] = None
+        mode = 'any' if mode == 'any' else mode
+    elif u < 0.04:
+        # large working ranks (> 20): two modes of size ~25, full-rank table, fixed rank
+        k = rng.randint(23, 28)
+        cfg['n'] = [k, k]
+        cfg['target'] = {'kind': 'rand', 'tseed': rng.randrange(1 << 30)}
+        cfg['y0'] = {'r': rng.randint(21, 24), 'seed': rng.randrange(1 << 30)}
+        cfg['dr_min'] = cfg['dr_max'] = 0
+        cfg['nswp'] = 2
+        cfg['e'] = cfg['e_vld'] = None
+        cfg['vld'] = None
+        cfg['ret'] = 'f64'
+        mode = 'any'
     ncrash = rng.choice([0, 1, 1, 2, 2, 3, 4])
+    if u < 0.04:
+        ncrash = min(ncrash, 1)
     crashes = []
     for _ in range(ncrash):
         kind = rng.choice(['none_at', 'm', 'cb_at'])
